@@ -839,8 +839,9 @@ pub fn exec<P: Pad>(call: &Value) {
             run_op::<P>(call, move || {
                 let np = with_world::<P, _>(|w| unsafe { node_ref(w, a) }.unwrap() as *const Node<P>);
                 let n = unsafe { &*np };
-                n.cleaner.registered.set(true);
                 let cl = n.cleaner.inner.register(move || crate::node::action_body::<P>(c, cap));
+                // the Cleaner owns a map from now on (a register that unwound out of its automatic collection created none)
+                n.cleaner.registered.set(true);
                 with_world::<P, _>(|w| {
                     w.cleanables.insert(c, Box::new(cl));
                 });
